@@ -155,10 +155,10 @@ async def _scenario(sc):
                 trace.append(['Other', 'twrite', cmd[2]])
             elif kind == 'enable':
                 await ports[cmd[2]].enable()
-                trace.append(['Other', 'enable', cmd[2]])
+                trace.append(['Enable', cmd[2]])
             elif kind == 'disable':
                 await ports[cmd[2]].disable()
-                trace.append(['Other', 'disable', cmd[2]])
+                trace.append(['Disable', cmd[2]])
             log.append([vloop.vtime_ms()] + cmd[1:])
         # let the hub settle: quiescent = nothing pending for 10 consecutive ticks
         calm = 0
